@@ -949,8 +949,51 @@ def stream_tasksigs(ctx):
     ctx.dist["paths_spellings"] += len(spellings)
 
 
+def check_pynode_sigs(ctx, nodes, count=True):
+    """Collected PythonNodes: same (directory, module, function, argument, tree position) <=> same signature."""
+    by_sig: dict = {}
+    for n in nodes:
+        ident = (n["dir"], n["module"], n["func"], n["side"], n["arg"], tuple(n["tp"]))
+        if count:
+            ctx.case(("pynode-sig",) + ident, True)
+        by_sig.setdefault(n["sig"], set()).add(ident)
+    info = {(n["dir"], n["module"], n["func"], n["side"], n["arg"], tuple(n["tp"])): n for n in nodes}
+    for sig, idents in by_sig.items():
+        if len(idents) > 1:
+            a, b = sorted(idents)[:2]
+            # F41: container-valued plain (unhashed) arguments are merged into a PythonNode that gets no node_info
+            fid = "F41" if all(not info[i]["has_info"] and not info[i]["hash"] for i in idents) else None
+            ctx.violation(f"pynode-merge: the python-value arguments {a[1]}::{a[2]}({a[4]}{list(a[5])}) in ./{a[0]} and {b[1]}::{b[2]}({b[4]}{list(b[5])}) in ./{b[0]} "
+                          f"are different arguments but one DAG node (one signature)", {"stream": "pynodesig", "a": list(a), "b": list(b)}, finding=fid)
+            if fid is None:
+                return
+
+
+def run_pynode_sigs(seed):
+    root = common.scratch_dir("c12sib")
+    try:
+        make_siblings(root, {m: 1 for m in SIBLINGS})
+        r = run_worker({"mode": "tasksigs", "cwd": str(root), "paths": [str(root)], "pynodes": True}, seed)
+    finally:
+        shutil.rmtree(root, ignore_errors=True)
+    return r
+
+
+def stream_pynode_sigs(ctx):
+    r1 = run_pynode_sigs(ctx.rng.randrange(1, 2 ** 31))
+    nodes = []
+    for n in r1.get("pynodes", []):
+        nodes.append(dict(n))
+    if r1["exit"] != 0 or not nodes:
+        ctx.violation(f"pynode-error: collecting the sibling-module project ended with exit {r1['exit']} and {len(nodes)} python nodes", {"stream": "pynodesig"})
+        return
+    check_pynode_sigs(ctx, nodes)
+    ctx.dist["pynode_sig_nodes"] += len(nodes)
+
+
 def stream_sigs(ctx):
     stream_tasksigs(ctx)
+    stream_pynode_sigs(ctx)
     decls = sig_pool(ctx.rng)
     seeds = [0, ctx.rng.randrange(1, 2 ** 31)]
     a, b = run_workers([{"mode": "sigs", "decls": decls}] * 2, seeds)
@@ -1446,6 +1489,77 @@ def spell_scenarios(rng):
     return out
 
 
+# --- python-value arguments of same-named tasks in sibling modules of one directory -----------------------------------------------
+TASK_SIBLING = '''from pathlib import Path
+from typing import Annotated
+from pytask import Product, PythonNode
+
+HERE = Path(__file__)
+VALUE = eval(HERE.with_name("value_" + HERE.stem + ".txt").read_text(), {"PosixPath": Path, "PurePosixPath": Path, "inf": float("inf")})
+
+
+def task_use(v: Annotated[object, PythonNode(value=VALUE, hash=True)], w=(VALUE, {"k": [VALUE]}),
+             out: Annotated[Path, Product] = Path("out_" + HERE.stem + ".txt")):
+    out.write_text(repr(v))
+
+
+def task_other(v: Annotated[object, PythonNode(value=VALUE, hash=True)],
+               out: Annotated[Path, Product] = Path("out2_" + HERE.stem + ".txt")):
+    out.write_text(repr(v))
+'''
+SIBLINGS = ["task_a", "task_b", "task_c"]
+
+
+def make_siblings(root: Path, values: dict):
+    (root / "sub").mkdir(exist_ok=True)
+    for m in SIBLINGS:
+        for d in (root, root / "sub"):
+            if not (d / f"{m}.py").exists():
+                (d / f"{m}.py").write_text(TASK_SIBLING)
+        write_sibling_values(root, {m: values[m]})
+        (root / "sub" / f"value_{m}.txt").write_text(repr(values[m]))
+
+
+def write_sibling_values(root: Path, values: dict):
+    for m, v in values.items():
+        (root / f"value_{m}.txt").write_text(repr(v).replace("PurePosixPath", "PosixPath"))
+
+
+def sibling_scenarios(rng):
+    """kind "siblings": same function and argument names in sibling modules; one hashed value changes per build."""
+    pool = [1, 2, 3, "a", "b", ("x", 1), ("x", 2), 7.5, None]
+    hist = [{"task_a": 1, "task_b": 1, "task_c": 1}, {"task_a": 2}, {"task_b": 2}, {"task_c": "a"}, {"task_a": 1}]
+    rnd = [{m: rng.choice(pool) for m in SIBLINGS}]
+    for _ in range(3):
+        rnd.append({rng.choice(SIBLINGS): rng.choice(pool)})
+    return [{"kind": "siblings", "steps": hist}, {"kind": "siblings", "steps": rnd}]
+
+
+def check_siblings(ctx, sc, builds, sid):
+    cur: dict = {}
+    for i, (step, b) in enumerate(zip(sc["steps"], builds)):
+        replay = {"stream": "e2e", "scenario": _sc_json(sc), "upto": i + 1}
+        ctx.case(("e2e-sib", sid, i), i > 0)
+        if b["exit"] != 0:
+            ctx.violation(f"e2e-error: build {i + 1} of the sibling-module project ended with exit {b['exit']}", replay)
+            return
+        changed = {m for m, v in step.items() if m not in cur or py_canon(cur[m]) != py_canon(v)}
+        demand = {m for m in changed if m not in cur or (same_shape(cur[m], step[m]) and told_apart(cur[m], step[m]))
+                  or kind(cur[m]) != kind(step[m])}
+        cur.update(step)
+        for m in SIBLINGS:
+            for fn in ("task_use", "task_other"):
+                outc = b["by_module"].get(f"{m}.py::{fn}")
+                if outc not in ("SUCCESS", "SKIP_UNCHANGED"):
+                    ctx.violation(f"e2e-error: build {i + 1}: {m}.py::{fn} ended with {outc}", replay)
+                    return
+                if m in demand and outc != "SUCCESS":
+                    ctx.violation(f"sibling-stale: build {i + 1}: the hashed value of argument v of {m}.py::{fn} changed ({show(step[m])}) but the task was not "
+                                  f"re-executed (same function and argument names exist in the sibling modules)", replay)
+                if m not in changed and outc == "SUCCESS":
+                    ctx.violation(f"sibling-rerun: build {i + 1}: only the value in {sorted(changed)} changed, but {m}.py::{fn}, whose own hashed argument is unchanged, re-executed", replay)
+
+
 def value_scenarios(rng):
     sc = [
         {"kind": "value", "values": [(1, 23), (1, 23), (12, 3), (1, 24)]},                 # F3 in the third build
@@ -1491,6 +1605,15 @@ def run_scenario(sc, hashseed):
                 r = run_worker({"mode": "build", "root": str(root)}, hashseed)
                 r["product"] = (root / "out.txt").read_text() if (root / "out.txt").exists() else None
                 builds.append(r)
+        elif sc["kind"] == "siblings":
+            cur: dict = {}
+            for step in sc["steps"]:
+                cur.update(step)
+                if len(cur) == len(step) and not (root / "task_a.py").exists():
+                    make_siblings(root, cur)
+                else:
+                    write_sibling_values(root, step)
+                builds.append(run_worker({"mode": "build", "root": str(root)}, hashseed))
         elif sc["kind"] == "spell":
             make_paths_tree(root)
             for k in sc["steps"]:
@@ -1537,6 +1660,8 @@ _UNSET = object()
 
 
 def check_scenario(ctx, sc, builds, sid):
+    if sc["kind"] == "siblings":
+        return check_siblings(ctx, sc, builds, sid)
     name = "task_use" if sc["kind"] in ("value", "pynode") else "task_copy"
     prev = _UNSET         # the input as of the last execution (what the recorded state describes)
     seen_mt: dict = {}    # mtime -> bytes the file had when a build first saw it under that mtime
@@ -1590,19 +1715,23 @@ def check_scenario(ctx, sc, builds, sid):
 
 
 def _sc_json(sc):
+    if sc["kind"] == "siblings":
+        return {"kind": "siblings", "steps": [{m: to_json(v) for m, v in st.items()} for st in sc["steps"]]}
     if sc["kind"] in ("value", "pynode"):
         return {"kind": sc["kind"], "values": [to_json(v) for v in sc["values"]]}
     return sc
 
 
 def _sc_from_json(j):
+    if j["kind"] == "siblings":
+        return {"kind": "siblings", "steps": [{m: from_json(v) for m, v in st.items()} for st in j["steps"]]}
     if j["kind"] in ("value", "pynode"):
         return {"kind": j["kind"], "values": [from_json(v) for v in j["values"]]}
     return j
 
 
 def stream_e2e(ctx):
-    scs = value_scenarios(ctx.rng) + file_scenarios(ctx.rng) + link_scenarios(ctx.rng) + pynode_scenarios(ctx.rng) + spell_scenarios(ctx.rng)
+    scs = value_scenarios(ctx.rng) + file_scenarios(ctx.rng) + link_scenarios(ctx.rng) + pynode_scenarios(ctx.rng) + spell_scenarios(ctx.rng) + sibling_scenarios(ctx.rng)
     if ctx.thorough or ctx.budget > 1:
         scs += value_scenarios(ctx.rng)[5:] + file_scenarios(ctx.rng)[2:3] + link_scenarios(ctx.rng)[2:]
     seeds = [ctx.rng.randrange(1, 2 ** 31) for _ in scs]
@@ -1644,6 +1773,8 @@ def replay(ctx, obj):
         res = check_pool_results(ctx, vals, sessions, seeds, count_cases=False)
         if ctx.use_model:
             model_pool(ctx, vals, res, [sessions[0][i]["k"] for i in range(len(vals))])
+    elif st == "pynodesig":
+        stream_pynode_sigs(ctx)
     elif st == "tasksig":
         sps = [tuple(x) for x in inp["spellings"]]
         check_tasksigs(ctx, sps, run_tasksigs(sps, seed + 1), count=False)
